@@ -123,7 +123,12 @@ def _run_e1(mod, ob: Ob, seed: int) -> Res:
         funcs, out, err = _collect_functions(fn, dict(witness))
         res.functions = funcs
         if ob.role == "main" and (err is not None or out is not True):
-            res.extra["witness"] = {"args": repr(witness), "returned": repr(out), "error": err}
+            # the concrete sanity input already fails: that is a counterexample candidate (replayed like any other)
+            res.status = "refuted"
+            res.detail = "concrete witness input fails: returned %r error %r" % (out, err)
+            res.model = json.dumps(_jsonable(dict(witness)))
+            res.extra["from_witness"] = True
+            return res
     stats: Counter = Counter()
     opts = DEFAULT_OPTIONS.overlay(AnalysisOptionSet(
         per_condition_timeout=float(ob.timeout), per_path_timeout=float(ob.timeout),
@@ -423,9 +428,6 @@ def _conclude(mod, prop: str, tier: str, seed: int, obs: List[Ob], results: List
         if st == "unknown":
             inconclusive.append(ob.name)
             continue
-        if r["extra"].get("witness"):
-            harness_errors.append("%s: concrete witness run failed: %s" % (ob.name, r["extra"]["witness"]))
-            continue
         if st == "confirmed":
             if ob.role == "finding":
                 # the listed finding no longer fails: nothing to print (a fixed entry suppresses nothing)
@@ -445,6 +447,10 @@ def _conclude(mod, prop: str, tier: str, seed: int, obs: List[Ob], results: List
             with open(path, "w") as f:
                 json.dump({"property": prop, "obligation": asdict(ob), "model": json.loads(r["model"]),
                            "key": key, "replay": rp}, f, indent=1, default=str)
+            if n_rep > 5 and not (key in kf and kf[key]["status"] == "known"):
+                os.remove(path)   # at most five replay files / VIOLATION lines per run
+                violations.append((r, None))
+                continue
             if key in kf and kf[key]["status"] == "known":
                 line = "KNOWN-FINDING: property=%s %s [%s] replay=%s" % (prop, kf[key]["what"], key, path)
                 if line.split(" replay=")[0] not in [k.split(" replay=")[0] for k in known_lines]:
@@ -517,6 +523,8 @@ def _conclude(mod, prop: str, tier: str, seed: int, obs: List[Ob], results: List
         len(violations), len(known_lines), len(harness_errors), wall))
     if violations:
         for (r, path) in violations:
+            if path is None:
+                continue
             print("  violated obligation %s: model=%s :: %s" % (r["name"], (r["model"] or "")[:300], str((r.get("replay") or {}).get("detail"))[:300]))
             print("VIOLATION property=%s replay=%s" % (prop, path))
         return EXIT_VIOLATION
